@@ -59,7 +59,8 @@ def run(tier, mode):
         canon = f'T{t}{ns.upper()}-R{g}{ew.upper()}'
         short = f'{t}{ns}{g}{ew}'
         # ---- fully written spellings
-        sp = r.choice(P.twprge_spellings(t, ns, g, ew))
+        # the numbers also in digits of another script (`\d`, int()) -- not for a one-digit range: the pattern's `[013-9]` (range-2 edge case) is ASCII by construction
+        sp = H.altdigits(r, r.choice(P.twprge_spellings(t, ns, g, ew)), 0.1 if g >= 10 else 0.0)
         ctx = r.choice([('', ' Sec 14: NE/4'), ('', '\nSection 14: NE/4'), ('NE/4 of Section 14, ', ''), ('Section 14: NE/4, ', '.')])
         text = ctx[0] + sp + ctx[1]
         texts.append(text)
@@ -79,7 +80,7 @@ def run(tier, mode):
         has_ns, has_ew = r.choice([(False, True), (True, False), (False, False)])
         if g == 2 and not has_ew:
             continue
-        sp = r.choice(spellings_partial(t, ns, g, ew, has_ns, has_ew))
+        sp = H.altdigits(r, r.choice(spellings_partial(t, ns, g, ew, has_ns, has_ew)), 0.1 if g >= 10 else 0.0)
         text = sp + ' Sec 14: NE/4'
         texts.append(text)
         channel = r.choice(['config', 'keyword', 'master', 'cfg_ns_kw_ew', 'cfg_ew_kw_ns', 'master_after_init'])
